@@ -5,7 +5,8 @@ CONSTANTS
   Statuses = {200, 204, 302, 404, 500}
   SizeNames = {"0", "small", "limit-1", "limit", "limit+1", "2limit"}
   PollLens = {0, 1, 300, 1500}
-INIT Init
-NEXT Stutter
-INVARIANT Emit
+  MaxPolls = 3
+SPECIFICATION Spec
+INVARIANTS ObjectImmutable PollsIndependent Emit
+PROPERTY AllPolled
 CHECK_DEADLOCK FALSE
